@@ -2,7 +2,7 @@
    Definitions only.
 
      x_scale k x        a length multiplied by the rational k: finite values are multiplied, +-infinity and NaN are kept
-                        (for k > 0 this is x_mul (Fin k) x: lemma x_scale_is_mul in Proofs/ScaleProofs.v)
+                        (for k > 0 this is x_mul (Fin k) x: lemma x_scale_is_mul in Proofs/ScalePrim.v); defined in Model/ScaleBase.v
      *_scale k          the lifts: Option / Size / Rect / Point; style lengths (LengthPercentage(Auto) / Dimension: `Length v`
                         is scaled, `Percent p` and `Auto` are untouched); AvailableSpace (Definite scaled); the leaf Style
                         record, LayoutInput, LayoutOutput, Layout and the measure-call log of Model/Leaf.v, Model/Root.v.
@@ -17,12 +17,10 @@
    The records of the absolutely-positioned kernels (Model/AbsPosBase.v has its own Size/Rect) are in Model/ScaleAbs.v. *)
 From Coq Require Import QArith List Bool NArith.
 From TV Require Import Num.Num Num.QNum Model.Common Model.Leaf Model.Root.
+From TV Require Export Model.ScaleBase.
 Import ListNotations.
 
-Definition x_scale (k : Q) (x : XQ) : XQ := match x with Fin q => Fin (k * q) | o => o end.
-
 (* ---- functional lifts *)
-Definition opt_scale (k : Q) (o : option XQ) : option XQ := option_map (x_scale k) o.
 Definition size_scale (k : Q) (s : Size XQ) : Size XQ := size_map (x_scale k) s.
 Definition osize_scale (k : Q) (s : Size (option XQ)) : Size (option XQ) := size_map (opt_scale k) s.
 Definition rect_scale (k : Q) (r : Rect XQ) : Rect XQ := rect_map (x_scale k) r.
@@ -58,14 +56,7 @@ Definition layout_scale (k : Q) (l : Layout XQ) : Layout XQ :=
            (size_scale k (l_scrollbar_size l)) (rect_scale k (l_border l)) (rect_scale k (l_padding l)) (rect_scale k (l_margin l)).
 Definition call_scale (k : Q) (c : MeasureCall XQ) : MeasureCall XQ := (osize_scale k (fst c), savail_scale k (snd c)).
 
-(* ---- relations *)
-(* a' is the length a scaled by k *)
-Definition sc (k : Q) (a a' : XQ) : Prop := xeq a' (x_scale k a).
-(* a dimensionless number is unchanged *)
-Definition dl (a a' : XQ) : Prop := xeq a' a.
-
-Definition op_rel {A} (R : A -> A -> Prop) (a a' : option A) : Prop :=
-  match a, a' with Some x, Some y => R x y | None, None => True | _, _ => False end.
+(* ---- relations (sc, dl, op_rel: Model/ScaleBase.v) *)
 Definition sz_rel {A} (R : A -> A -> Prop) (a a' : Size A) : Prop := R (width a) (width a') /\ R (height a) (height a').
 Definition rc_rel {A} (R : A -> A -> Prop) (a a' : Rect A) : Prop :=
   R (r_left a) (r_left a') /\ R (r_right a) (r_right a') /\ R (r_top a) (r_top a') /\ R (r_bottom a) (r_bottom a').
